@@ -249,6 +249,15 @@ def generated(seed, n, tag="gen"):
     return [{"origin": f"{tag}:{seed}:{i}", "text": g.program()} for i in range(n)]
 
 
+def generated_iter(seed, tag="search"):
+    rng = random.Random(seed)
+    g = Gen(rng)
+    i = 0
+    while True:
+        yield {"origin": f"{tag}:{seed}:{i}", "text": g.program()}
+        i += 1
+
+
 def base_inputs(seed, n_gen):
     """curated first, then repo tests, then generated"""
     return curated() + harvest() + generated(seed, n_gen)
